@@ -26,6 +26,7 @@ REQUIRED = ['keeps_direct_seats', 'house_grows_by_adj', 'house_grows_by_adj_of_f
             'level_least_enlargement_ha', 'level_least_enlargement_lr', 'multistage_final_is_proportional',
             'level_terminates_lr', 'level_final_is_proportional_lr', 'level_terminates_of_adequate',
             'level_cty_final_party_totals', 'partyVotes_ok']
+NAME_MODES = ['str', 'int0', 'empty0']
 REQUIRED_COUNTERS = ['overhang_present', 'no_overhang', 'party_outside_tier', 'party_without_votes',
                      'levelling_iterations_ge2', 'by_constituency', 'multistage_wrapped',
                      'allow', 'level', 'd_hondt', 'sainte_lague', 'hare_lr', 'tie_in_baseline', 'multistage_depth2', 'default_overall', 'apportioned', 'intermediate_tie', 'alabama_lr']
